@@ -125,6 +125,7 @@ class BtProp(Prop):
     keep_cur = False       # current-child column of N
     exhaustive = False     # thorough tier adds the exhaustive small-scope block
     stream_share = 0.0     # share of scenarios whose implementation side runs with the blackboard activity stream on
+    p_setup = 0.0          # per-operation probability of a setup() in mid-history
     inner_stop = 0.0       # share of stop operations aimed at a random inner behaviour (external stop(INVALID))
     invalid_block = None   # (profile, clauses not judged): extra implementation-only scenarios with INVALID outcomes
     assumptions = ["visitors / handlers do not mutate the tree mid-tick", "user callbacks do not raise",
@@ -149,6 +150,8 @@ class BtProp(Prop):
             prof = self.profile_for(rng)
             if self.inner_stop:
                 prof = bt_gen.Profile(**dict(vars(prof), p_inner_stop=self.inner_stop))
+            if self.p_setup:
+                prof = bt_gen.Profile(**dict(vars(prof), p_setup=self.p_setup))
             if tier == "thorough" and i % 4 == 0:
                 prof = bt_gen.Profile(**dict(vars(prof), max_nodes=25, max_ops=40, max_depth=5))
             out.append(bt_gen.gen_scenario(rng, prof, "%s_%s_%d" % (self.pid, tier[0], i)))
@@ -330,6 +333,22 @@ class C01(BtProp):
                             out.append(viol("initialise-while-running", "composite %d: initialise() hook called %s"
                                             % (q, "twice in one tick" if q in seen_ci else "while it was RUNNING"), leaf=q))
                         seen_ci.add(q)
+                # ... and so is a decorator: initialise() once per round and never while RUNNING, terminate(SUCCESS /
+                # FAILURE) at most once per tick
+                seen_di, done_dt = set(), {}
+                for h in o.hooks:
+                    if h.startswith("di"):
+                        q = int(h[2:])
+                        if q in seen_di or st_of(prev_o, q) == "R":
+                            out.append(viol("initialise-while-running", "decorator %d: initialise() called %s"
+                                            % (q, "twice in one tick" if q in seen_di else "while it was RUNNING"), leaf=q))
+                        seen_di.add(q)
+                    elif h.startswith("dt") and not h.endswith(":I"):
+                        q = int(h[2:].split(":")[0])
+                        done_dt[q] = done_dt.get(q, 0) + 1
+                        if done_dt[q] > 1:
+                            out.append(viol("terminate-twice", "decorator %d: terminate(%s) called twice in one tick"
+                                            % (q, h.split(":")[1]), leaf=q))
             T = [e for e in o.T if e[0] in "IUX" and sh.is_leaf(e[1])]
             allT = [e for e in o.T if e[0] in "IUXE"]
             j = 0
@@ -866,6 +885,7 @@ def dec_kind(sh, i):
 @register
 class C09(BtProp):
     pid = "C09"
+    p_setup = 0.04
     invalid_block = ("dec", [])
     profiles = [("dec", 0.6), ("stock", 0.2), ("coreprobe", 0.2)]
     keep = "TNW"
@@ -876,6 +896,16 @@ class C09(BtProp):
             "with a RUNNING child at least once and completed at least once")
 
     def check_op(self, sh, prev, o):
+        if o.op.startswith("setup") and o.ok:
+            # Count.setup() "resets the counters": after a (re-)setup every counter of every Count is zero, so that the
+            # counters equal what occurred since
+            out = []
+            for d in sh.node:
+                if sh.kind(d) == "D" and dec_kind(sh, d) == "count" and d in o.N:
+                    b = [int(x) for x in o.N[d][2][1:].split(",")]
+                    if any(b):
+                        out.append(viol("count-setup", "Count %d counters %s after setup()" % (d, b)))
+            return out
         if not o.op.startswith("tick"):
             return []
         out = []
@@ -1001,6 +1031,7 @@ class C09(BtProp):
 @register
 class C10(BtProp):
     pid = "C10"
+    p_setup = 0.04
     profiles = [("dec", 0.8), ("coreprobe", 0.2)]
     keep = "TN"
     keep_events = "EUXY"
@@ -1361,6 +1392,14 @@ class C17(BtProp):
                                 want = "F"
                             elif a[2] == "-":
                                 want = "S"
+                            else:
+                                # nested name key.a.b: when the object holding the last attribute exists the write
+                                # succeeds (creating or overwriting that attribute)
+                                from common import Obj
+                                parts = a[2].split(".")
+                                okp, parent = _get(W, a[1], ".".join(parts[:-1]) or "-")
+                                if okp and isinstance(parent, Obj):
+                                    want = "S"
                         elif kind == "b2s":
                             ok, v = _get(W, a[1], a[2])
                             if ok and hasattr(v, "name") and W_is_status(v):
@@ -1383,6 +1422,26 @@ class C17(BtProp):
                                 sh.node[j][0] == "D" and sh.node[j][2].startswith("s2b") for j in sh.node):
                             out.append(viol("unset-effect", "UnsetBlackboardVariable %d ran but %s still has a value"
                                             % (i, n[2][1])))
+                # a nested SetBlackboardVariable that reported SUCCESS has written the value (unless a later writer of
+                # the same key ran in this tick)
+                for i, n in sh.node.items():
+                    if n[0] == "L" and n[2][0] == "set" and str(n[2][2]) != "-" and ("U", i, "S") in o.T:
+                        ent = entered(o)
+                        key = str(n[2][1])
+                        later = False
+                        for j in ent[ent.index(i) + 1:] if i in ent else []:
+                            m = sh.node[j]
+                            if (m[0] == "L" and m[2][0] in WRITERS and key in [str(x) for x in m[2]]) \
+                                    or (m[0] == "D" and m[2].startswith("s2b")):
+                                later = True
+                        if ent.count(i) != 1 or later or any(sh.node[j][0] == "D" and sh.node[j][2].startswith("s2b")
+                                                             for j in sh.node):
+                            continue
+                        ok, v = _get(o.W, key, str(n[2][2]))
+                        from common import val_str as _vs
+                        if not ok or _vs(v) != str(n[2][3]):
+                            out.append(viol("set-effect", "SetBlackboardVariable %d reported SUCCESS but %s.%s is %s, not %s"
+                                            % (i, key, n[2][2], _vs(v) if ok else "<missing>", n[2][3]), kind="set"))
                 # StatusToBlackboard publishes the child's status on every tick (round trip with BlackboardToStatus)
                 Yd = yielded(o)
                 for d, n in sh.node.items():
